@@ -45,4 +45,21 @@ claim('C11', 'model_checking', 'tlc-emit-replay', 'TLA+ spec NixFile with Flush/
       'Close/Crash/Open transition is executed: the writer is killed with SIGKILL at the crash point while holding all handles, the parent '
       'reopens in every mode and compares the full observation; closed handles must throw, descriptors must be released.',
       FILE_NOTE + ' Crash = kill of the process (page cache survives), not of the machine; opening for write counts as a modification.', 'DESIGN.md section 5 (C11)')
+RETR_NOTE = ('Trusted: TLC, harness/h_retr.cpp + axes.hpp. Axis length n<=3, rank<=3, N<=2 rows (quick); concrete axes from a finite dictionary; '
+             'positions re-classified exactly before judging. Unit scaling of positions is judged in C18.')
+claim('C05', 'model_checking', 'tlc-emit-replay', 'TLA+ spec NixRetrieval (on NixAxisDefs) + TLC (exhaustive case table) + one implementation test per case per concrete axis',
+      'The region rule is stated once in NixRetrieval.tla; TLC enumerates every rank-1 case and the combination classes for rank 2-3 and checks '
+      'ExactOneDim/PointIsGE/UnspecifiedIsFull/InsideData; each case is executed (elements compared). One recorded deviation '
+      '(C05-unspecified-dim) is recognised by an exact signature.', RETR_NOTE, 'DESIGN.md section 5 (C05)')
+claim('C06', 'model_checking', 'tlc-emit-replay', 'TLA+ spec NixRetrieval (MultiRegion/MultiList) + TLC (exhaustive case table) + implementation test per case',
+      'MultiRegion/MultiList/FeatureRegionMulti with ListEqualsSingles and IndexBeyondIsError checked by TLC; every case is executed through '
+      'all retrieval entry points incl. the default mode, list vs singles, all link types.', RETR_NOTE, 'DESIGN.md section 5 (C06)')
+claim('C17', 'model_checking', 'tlc-emit-replay', 'TLA+ specs NixRetrieval (SliceRegion) and NixData (DataView actions, ViewFrame) + TLC + replay',
+      'Slices: same rule as tags, every rank-1 case exhaustively + combinations, executed through util::dataSlice. Views: every window of small '
+      'arrays x every request inside / touching / crossing, reads and writes in histories; the underlying array is compared after every step.',
+      RETR_NOTE, 'DESIGN.md section 5 (C17)')
+claim('C01', 'model_checking', 'tlc-emit-replay', 'TLA+ spec NixData + TLC (BFS over write/append/extent/calibration/reopen histories) + per-transition replay per element type',
+      'SlabFrame/GrowReadsZero/AppendKeeps/RawUnaffected/RejectFrame hold on the design; every transition is executed for each element type '
+      'and compression and the whole content plus every rectangular sub-region is read back raw, calibrated and cross-type.',
+      'Trusted: TLC, harness/h_data.cpp. Small shapes (ext<=3, rank<=3 quick / 4 thorough); values from per-type dictionaries, not arbitrary bit patterns.', 'DESIGN.md section 5 (C01)')
 ENGINES[0]['serves_properties'] = sorted(CLAIMED)
